@@ -49,6 +49,9 @@ type Interp struct {
 	Unspecified bool // an edge the documentation leaves open was touched
 	Rounded     bool // a numeric method with inherently rounded results ran (compare with a tolerance)
 	Inexact     bool // a float product was rounded (regrouping by the optimizer may change the last bit)
+	// BudgetHit: the budget was exceeded somewhere - also where the error does not reach the
+	// outcome itself (an element of a list result, a branch behind try)
+	BudgetHit bool
 }
 
 // ErrBudget is returned when the evaluation exceeds the step or depth budget.
@@ -70,6 +73,7 @@ func Globals() *Env {
 func (in *Interp) step() error {
 	in.Steps++
 	if in.Steps > in.Budget {
+		in.BudgetHit = true
 		return ErrBudget
 	}
 	return nil
@@ -348,6 +352,7 @@ func (in *Interp) Apply(clo *Closure, args []Value) (Value, error) {
 	}
 	defer func() { in.Depth-- }()
 	if in.Depth > 400 {
+		in.BudgetHit = true
 		return nil, ErrBudget
 	}
 	return clo.Call(args)
